@@ -148,6 +148,18 @@ class Module:
                 self._bind(scope, st.targets[0].id, st.value)
             elif isinstance(st, ast.AnnAssign) and isinstance(st.target, ast.Name) and st.value is not None:
                 self._bind(scope, st.target.id, st.value)
+            elif isinstance(st, ast.Assign) and len(st.targets) == 1 and isinstance(st.targets[0], ast.Subscript) \
+                    and isinstance(st.targets[0].value, ast.Name) and isinstance(self.consts.get(scope, {}).get(st.targets[0].value.id), dict):
+                # TABLE[key] = value  right after the table was built
+                from . import consteval
+                try:
+                    k = consteval.evaluate(st.targets[0].slice, self._const_lookup(scope))
+                    v = consteval.evaluate(st.value, self._const_lookup(scope))
+                    d = dict(self.consts[scope][st.targets[0].value.id])
+                    d[k] = v
+                    self.consts[scope][st.targets[0].value.id] = d
+                except consteval.NotConstant:
+                    self.consts[scope].pop(st.targets[0].value.id, None)
             elif isinstance(st, ast.ClassDef) and scope == '':
                 self._scan_consts(st.body, st.name)
             elif isinstance(st, (ast.If, ast.Try)):
@@ -160,6 +172,32 @@ class Module:
             self.consts.setdefault(scope, {})[name] = self.fold(value, scope)
         except Unfoldable:
             self.consts.get(scope, {}).pop(name, None)
+            # tables computed from literals (comprehensions, enumerate, string.* ...)
+            from . import consteval
+            try:
+                self.consts.setdefault(scope, {})[name] = consteval.evaluate(value, self._const_lookup(scope))
+            except consteval.NotConstant:
+                pass
+            except RecursionError:
+                pass
+
+    def _const_lookup(self, scope):
+        def look(name):
+            for sc in ([scope] if scope else []) + ['']:
+                d = self.consts.get(sc, {})
+                if name in d:
+                    return (d[name],)
+            parts = name.split('.')
+            if len(parts) == 2 and parts[0] in ('cls', 'self') and scope:
+                for c in self.mro(scope):
+                    if parts[1] in self.consts.get(c, {}):
+                        return (self.consts[c][parts[1]],)
+            if len(parts) == 2 and parts[0] in self.classes:
+                for c in self.mro(parts[0]):
+                    if parts[1] in self.consts.get(c, {}):
+                        return (self.consts[c][parts[1]],)
+            return None
+        return look
 
     def fold(self, e, scope='', env=None):
         """constant folding of an expression in class scope `scope` ('' = module)"""
